@@ -35,6 +35,7 @@ from __future__ import annotations
 
 import ast
 
+from ..cfg import ALLC
 from ..dataflow import defs_of, origins
 from ..model import ancestors, dotted, unparse
 from ..selftest import V
@@ -124,6 +125,38 @@ def _run_facts_uncached(ctx):
     return dict(f=f, g=g, me=me, A=A[0], jid=jid, jobs=jobs, B=B, C=C, D=D)
 
 
+def _path_without_edges(g, src: int, dsts: set[int], banned) -> list[int] | None:
+    """Shortest path src -> dsts over all edge kinds (normal, exception, cancellation) that never follows an edge
+    (a, kind) for which `banned(a, kind)` holds."""
+    if not dsts:
+        return None
+    prev, todo = {src: None}, [src]
+    while todo:
+        nxt = []
+        for a in todo:
+            for b, k in g.succ[a]:
+                if k not in ALLC or b in prev or banned(a, k):
+                    continue
+                prev[b] = a
+                if b in dsts:
+                    out = [b]
+                    while prev[out[-1]] is not None:
+                        out.append(prev[out[-1]])
+                    return out[::-1]
+                nxt.append(b)
+        todo = nxt
+    return None
+
+
+def _route(g, path) -> str:
+    """name the first exceptional edge of a witness path"""
+    for a, b in zip(path, path[1:]):
+        k = next((k for x, k in g.succ[a] if x == b and k in ("exc", "cexc")), None)
+        if k:
+            return f"{'cancellation' if k == 'cexc' else 'exception / cancellation'} raised at L{g.nodes[a].lineno} `{g.nodes[a].text(50)}`"
+    return "normal control flow"
+
+
 def _is_jid(f, e, jid) -> bool:
     return any(isinstance(o, ast.Name) and o.id == jid for o in [e, *origins(f, e)])
 
@@ -186,18 +219,22 @@ def r1(ctx):
         v = fold3(n.ast, atom)
         if hit and v is not None:
             tests.append((n, v))
-    rets = [n for n in g.nodes.values() if n.kind == "return" and n.id in g.reach([A.id])]
-    ctx.require(bool(rets), "C27.R1: the batch branch of run has no return")
+    rets = [n for n in g.nodes.values() if n.kind == "return" and n.id in g.reach([A.id], kinds=ALLC)]
+    ctx.require(any(n.id in g.reach([A.id]) for n in rets), "C27.R1: the batch branch of run has no return")
     ctx.ob("R1", "run tests `job_id not in <latest listing>`", len(tests) >= 1, func=f, node=tests[0][0].ast if tests else A.ast, instance="run:exit-test",
            message="run no longer tests whether the job id left the listing returned by _get_running_jobs")
     Ei = [n.id for n, _ in tests]
     still = [s for n, v in tests for s in edge_succ(g, n.id, "t" if v else "f")]
     done = [s for n, v in tests for s in edge_succ(g, n.id, "f" if v else "t")]
     in_wait = g.reach(still, avoid=Ei, include_src=True) if tests else set()
+    done_kind = {n.id: ("f" if v else "t") for n, v in tests}
     for r in rets:
-        ok = bool(tests) and g.dominates(Ei, r.id) and r.id not in in_wait
+        # over normal, exception and cancellation routes (a handler that returns or leaves the loop counts too)
+        unobserved = _path_without_edges(g, A.id, {r.id}, lambda a, k: done_kind.get(a) == k)
+        ok = bool(tests) and g.dominates(Ei, r.id) and r.id not in in_wait and unobserved is None
         ctx.ob("R1", "the result is returned only after the job left the listing", ok, func=f, node=r.ast, instance="run:return-after-exit",
-               message="run can return the job's result while the job id is still in the running-jobs listing (or without testing it)")
+               message="run can return the job's result while the job id is still in the running-jobs listing (or without testing it)"
+                       + (f" -- {_route(g, unobserved)}" if unobserved else ""), witness=g.describe(unobserved) if unobserved else [])
     ok = bool(tests) and all(g.dominates(Di, e) for e in Ei)
     stale = None
     for s in still:
@@ -212,6 +249,16 @@ def r1(ctx):
     ctx.ob("R1", "the job id is removed from _scheduled_jobs only after the job left the listing", bool(P) and not early, func=f, node=P[0].ast if P else A.ast, instance="run:pop-after-exit",
            message="run removes the job id from _scheduled_jobs before the exit test succeeded (queries restricted to _scheduled_jobs then miss the job)" if P else
                    "run never removes the finished job id from _scheduled_jobs")
+    # 5b. ... also on the exception / cancellation routes (handlers, finally copies): a removal reached without
+    # crossing the exit edge of the test deregisters a job that is still queued, so undeploy no longer cancels it
+    failing = _path_without_edges(g, g.entry, set(Pi) - set(early), lambda a, k: done_kind.get(a) == k) if tests else None
+    bad = g.nodes[failing[-1]] if failing else None
+    ctx.ob("R1", "no exception / cancellation route removes the job id while the job may still be queued", bool(tests) and failing is None, func=f,
+           node=bad.ast if bad is not None else (P[0].ast if P else A.ast), instance="run:pop-on-failure-route",
+           message=(f"run executes `{bad.text(60)}` on a route that did not observe the job leaving the queue ({_route(g, failing)}): when the wait is "
+                    "cancelled or a poll raises, the still queued job is deregistered and undeploy no longer cancels it") if bad is not None else
+                   "run has no exit test, so every removal of the job id is unobserved",
+           witness=g.describe(failing) if failing else [])
     esc = None
     for s in done:
         esc = esc or (g.escape(s, Pi) if s not in Pi else None)
@@ -685,6 +732,15 @@ UND = f"{QMC}.undeploy"
 _CLEAR = "        async with self._jobs_cache_lock:\n            self._jobs_cache.clear()\n"
 _REG = "        self._scheduled_jobs[job_id] = location\n"
 
+_LOOP = ("        while True:\n            async with self._jobs_cache_lock:\n                running_jobs = await self._get_running_jobs(location)\n"
+         "            if job_id not in running_jobs:\n                break\n            await asyncio.sleep(self.pollingInterval)\n")
+_POP = "        self._scheduled_jobs.pop(job_id)\n"
+
+
+def _ind(text: str) -> str:
+    return "".join("    " + ln + "\n" for ln in text.splitlines())
+
+
 _GATHER = "    await asyncio.gather(*(asyncio.create_task(self._remove_jobs(loc_map[location], jobs)) for location, jobs in jobs_map.items()))\n"
 
 VARIANTS = [
@@ -704,6 +760,16 @@ VARIANTS = [
     V("listing polled once, loop re-tests the stale listing", FILE, RUN,
       "        while True:\n            async with self._jobs_cache_lock:\n                running_jobs = await self._get_running_jobs(location)\n",
       "        async with self._jobs_cache_lock:\n            running_jobs = await self._get_running_jobs(location)\n        while True:\n", "R1"),
+    V("pop moved into a finally around the wait loop (seeded C27-2)", FILE, RUN, _LOOP + _POP,
+      "        try:\n" + _ind(_LOOP) + "        finally:\n            self._scheduled_jobs.pop(job_id, None)\n", "R1", control=True),
+    V("pop in an `except Exception` handler that re-raises", FILE, RUN, _LOOP,
+      "        try:\n" + _ind(_LOOP) + "        except Exception:\n            self._scheduled_jobs.pop(job_id, None)\n            raise\n", "R1"),
+    V("pop when the wait is cancelled", FILE, RUN, _LOOP,
+      "        try:\n" + _ind(_LOOP) + "        except asyncio.CancelledError:\n            del self._scheduled_jobs[job_id]\n            raise\n", "R1"),
+    V("poll failure reported as the job's result", FILE, RUN, "            async with self._jobs_cache_lock:\n                running_jobs = await self._get_running_jobs(location)\n",
+      "            try:\n                async with self._jobs_cache_lock:\n                    running_jobs = await self._get_running_jobs(location)\n            except Exception:\n                return (None, 1)\n", "R1"),
+    V("poll failure treated as `job finished`", FILE, RUN, "            async with self._jobs_cache_lock:\n                running_jobs = await self._get_running_jobs(location)\n",
+      "            try:\n                async with self._jobs_cache_lock:\n                    running_jobs = await self._get_running_jobs(location)\n            except Exception:\n                break\n", "R1"),
     # ---- R2
     V("one sibling caches on another cache object", FILE, f"{MOD}.PBSConnector._get_running_jobs", "cache=lambda self: self._jobs_cache", "cache=lambda self: self._other_cache", "R2", control=True),
     V("one sibling caches on a private TTLCache", FILE, f"{MOD}.FluxConnector._get_running_jobs", "cache=lambda self: self._jobs_cache", "cache=TTLCache(maxsize=1, global_ttl=5)", "R2"),
@@ -728,8 +794,10 @@ VARIANTS = [
     V("run passes an unwrapped location to _get_output", FILE, RUN, "await self._get_output(job_id, location)", "await self._get_output(job_id, get_inner_location(location))", "R5"),
     V("run polls with an unwrapped location", FILE, RUN, "running_jobs = await self._get_running_jobs(location)", "inner = get_inner_location(location)\n                running_jobs = await self._get_running_jobs(inner)", "R5"),
     # ---- benign
-    V("S13 repair: undeploy keeps the wrapping location", FILE, UND, "loc_map.setdefault(inner_location.name, inner_location)", "loc_map.setdefault(inner_location.name, location)", None),
-    V("S14 repair: reset right after the snapshot", FILE, UND, _GATHER + "    self._scheduled_jobs = {}\n", "    self._scheduled_jobs = {}\n" + _GATHER, None),
+    V("S13 reverted: undeploy hands the already unwrapped location to _remove_jobs", FILE, UND, "loc_map.setdefault(inner_location.name, location)", "loc_map.setdefault(inner_location.name, inner_location)", "R5"),
+    V("S14 reverted: map reset after awaiting the cancellations", FILE, UND, "    self._scheduled_jobs = {}\n" + _GATHER, _GATHER + "    self._scheduled_jobs = {}\n", "R3"),
+    V("undeploy unwraps for the key only, local renamed", FILE, UND, "inner_location", "inner", None, count=4),
+    V("reset via clear() right after the snapshot", FILE, UND, "    self._scheduled_jobs = {}\n" + _GATHER, "    self._scheduled_jobs.clear()\n" + _GATHER, None),
     V("S14 repair: swap the map, iterate the old one", FILE, UND, "    for job_id, location in self._scheduled_jobs.items():\n",
       "    scheduled, self._scheduled_jobs = (self._scheduled_jobs, {})\n    for job_id, location in scheduled.items():\n", None),
     V("rename job id variable", FILE, RUN, "job_id", "jid", None, count=7),
@@ -740,5 +808,12 @@ VARIANTS = [
       "            if job_id in running_jobs:\n                await asyncio.sleep(self.pollingInterval)\n            else:\n                break\n", None),
     V("clear and first poll under one lock hold", FILE, RUN, _CLEAR, "        async with self._jobs_cache_lock:\n            self._jobs_cache.clear()\n            await self._get_running_jobs(location)\n", None),
     V("undeploy empties with clear()", FILE, UND, "self._scheduled_jobs = {}", "self._scheduled_jobs.clear()", None),
+    V("finally around the wait loop only logs, pop stays behind it", FILE, RUN, _LOOP,
+      "        try:\n" + _ind(_LOOP) + "        finally:\n            logger.debug('wait over')\n", None),
+    V("pop in the else clause of a try around the wait loop", FILE, RUN, _LOOP + _POP,
+      "        try:\n" + _ind(_LOOP) + "        except Exception:\n            logger.error('poll failed')\n            raise\n        else:\n            self._scheduled_jobs.pop(job_id)\n", None),
+    V("tolerant pop after the loop", FILE, RUN, _POP, "        self._scheduled_jobs.pop(job_id, None)\n", None),
+    V("failed poll retried in the next round", FILE, RUN, "            async with self._jobs_cache_lock:\n                running_jobs = await self._get_running_jobs(location)\n",
+      "            try:\n                async with self._jobs_cache_lock:\n                    running_jobs = await self._get_running_jobs(location)\n            except WorkflowExecutionException:\n                await asyncio.sleep(self.pollingInterval)\n                continue\n", None),
     V("result into locals", FILE, RUN, "        self._scheduled_jobs.pop(job_id)\n", "        self._scheduled_jobs.pop(job_id)\n        logger.debug('left the queue')\n", None),
 ]
